@@ -74,6 +74,8 @@ var prevDayEndC1 = math.NaN()
 var prevDayEndCnt [3]float64
 var unstableDays, unstableEarlyDays, laterSubstepNitroCalls int
 var bookPre [5]float64
+var tableParams = map[uint64][3][21]float64{}
+var tableLevelRepeats int
 
 func bookSums(g *hermes.GlobalVarsMain) [5]float64 {
 	var a, b float64
@@ -159,6 +161,7 @@ func irrigationFile(work, line string) map[string][2]float64 {
 func traceLine(work, line string, lineNo int, r *rng, waterEvery int) {
 	var day, nday dayAcc
 	prevDayEndZeit = -1
+	tableParams = map[uint64][3][21]float64{}
 	gwfcPrevZeit, gwfcPrevGRW, gwfcChanged = -10, math.NaN(), false
 	irrFile := irrigationFile(work, line)
 	irrByZeit := map[int][2]float64(nil)
@@ -191,6 +194,34 @@ func traceLine(work, line string, lineNo int, r *rng, waterEvery int) {
 							break
 						}
 					}
+				}
+			}
+			// C06 (every route): capacities, pore volume, dryness limit and water content of a layer are volume fractions:
+			// finite and within [0, 1]; on the texture-table route (Hydro is re-read at every level change) a layer's
+			// parameters are a function of the level: the same level later in the run gives the same values
+			for l := 0; l < g.N; l++ {
+				for vi, v := range []float64{g.W[l], g.PORGES[l], g.WMIN[l], g.WG[0][l]} {
+					if math.IsNaN(v) || v < 0 || v > 1 {
+						oracleFail("volume-fraction-out-of-range line=%d zeit=%d layer=%d what=%s value=%v grw=%v", lineNo, zeit, l+1,
+							[]string{"field-capacity", "pore-volume", "wilting-point", "water-content"}[vi], v, g.GRW)
+						l = g.N
+						break
+					}
+				}
+			}
+			if g.PTF == 0 && g.CAPPAR == 0 {
+				key := math.Float64bits(g.GRW)
+				cur := [3][21]float64{g.W, g.PORGES, g.WMIN}
+				if was, ok := tableParams[key]; ok {
+					for l := 0; l < g.N; l++ {
+						if was[0][l] != cur[0][l] || was[1][l] != cur[1][l] || was[2][l] != cur[2][l] {
+							oracleFail("table-params-not-a-function-of-level line=%d zeit=%d layer=%d grw=%v fc=%v was=%v pore-volume=%v was=%v", lineNo, zeit, l+1, g.GRW, cur[0][l], was[0][l], cur[1][l], was[1][l])
+							break
+						}
+					}
+					tableLevelRepeats++
+				} else {
+					tableParams[key] = cur
 				}
 			}
 			gwfcPrevZeit, gwfcPrevGRW = zeit, g.GRW
@@ -450,5 +481,5 @@ func traceLine(work, line string, lineNo int, r *rng, waterEvery int) {
 	}
 	res := runProject(work, splitArgs(line))
 	hermes.VerifProbe = nil
-	emit(jobj{"k": "run", "line": lineNo, "success": res.Success, "err": res.Err, "days": days, "substeps": sub, "file_irrigations_checked": irrSeen, "later_substep_nitro_calls": laterSubstepNitroCalls, "unstable_days": unstableDays, "unstable_early_days": unstableEarlyDays})
+	emit(jobj{"k": "run", "line": lineNo, "success": res.Success, "err": res.Err, "days": days, "substeps": sub, "file_irrigations_checked": irrSeen, "table_route_level_repeats": tableLevelRepeats, "later_substep_nitro_calls": laterSubstepNitroCalls, "unstable_days": unstableDays, "unstable_early_days": unstableEarlyDays})
 }
